@@ -376,6 +376,9 @@ var c13CodecVals = func() []uint64 {
 	return out
 }()
 
+// multiples of 2^64 (VarUInt) / 2^63 (VarInt) added on top of a codec value in a ten-byte field; 0 = none
+var c13Over = []uint64{0, 1, 2, 3, 32, 63}
+
 // c13Codec: ion-go's own encoder and decoder for each integer field are inverse.
 func c13Codec(c *mc.Ctx) {
 	u := c13CodecVals[c.Shard("v", len(c13CodecVals))]
@@ -390,6 +393,19 @@ func c13Codec(c *mc.Ctx) {
 		if err != nil || got != u || n != uint64(len(b)) {
 			c.Fail("value-mismatch", "varuint", "VarUInt %d -> %x -> %d (%v)", u, b, got, err)
 		}
+		// the ten-byte spelling of 2^64*k + u does not fit 64 bits: it must be refused, any value returned is a wrap
+		if k := c13Over[c.Pick("over", len(c13Over))]; k != 0 {
+			b := make([]byte, 10)
+			b[0] = byte(u>>63) | byte(k<<1)
+			for i := 1; i < 10; i++ {
+				b[i] = byte(u>>(7*uint(9-i))) & 0x7F
+			}
+			b[9] |= 0x80
+			got, _, err := ion.VerifReadVarUint(b)
+			if err == nil {
+				c.Fail("wrapped", "varuint-over", "VarUInt %x (= 2^64*%d + %d) was read as %d", b, k, u, got)
+			}
+		}
 	case 1:
 		if u > math.MaxInt64 {
 			c.Skip("beyond int64")
@@ -403,6 +419,22 @@ func c13Codec(c *mc.Ctx) {
 		got, _, n, err := ion.VerifReadVarInt(b)
 		if err != nil || got != v || n != uint64(len(b)) {
 			c.Fail("value-mismatch", "varint", "VarInt %d -> %x -> %d (%v)", v, b, got, err)
+		}
+		// the ten-byte spelling of +-(2^63*k + |v|) does not fit int64
+		if k := c13Over[c.Pick("over", len(c13Over))]; k != 0 {
+			b := make([]byte, 10)
+			b[0] = byte(k)
+			if neg {
+				b[0] |= 0x40
+			}
+			for i := 1; i < 10; i++ {
+				b[i] = byte(u>>(7*uint(9-i))) & 0x7F
+			}
+			b[9] |= 0x80
+			got, _, _, err := ion.VerifReadVarInt(b)
+			if err == nil {
+				c.Fail("wrapped", "varint-over", "VarInt %x (magnitude 2^63*%d + %d) was read as %d", b, k, u, got)
+			}
 		}
 	case 2:
 		v := new(big.Int).SetUint64(u)
@@ -762,7 +794,7 @@ func init() {
 		Title: "Numbers are never silently truncated, wrapped or rounded",
 		Rule: "eight exhaustive parts on the real code: (1) every integer ±(2^k+d), k<=80, |d|<=2 and every integer in [-2^16,2^16] (thorough: [-2^20,2^20]) carried by ion-go text/binary writers through each Writer entry point, by reference binary with 0/1/2 leading zero bytes and by reference hex text: IntSize never too small, Int64Value/IntValue exact or error, BigIntValue exact; " +
 			"(2) the full accessor matrix 13 types x null/non-null x 11 accessors x text/binary: nil for own-type null, usage error for other types; (3) floats: sign x all 2048 exponents x 16 (thorough 256) mantissa patterns around the float32 cut: binary output decoded by the independent decoder and by the Reader is bit-identical, text likewise; " +
-			"(4) ion-go's VarUInt/VarInt/Int encoders composed with its own decoders at every 2^k±2 and 0..299; (5) symbol IDs at VarUInt/UInt boundaries up to 2^32 through a placeholder import (last import slot, first local slot, one past the end) as value, annotation and field name; (6) an integer of every byte length 1..20, both signs, inside a list / sexp / struct / sorted struct (D1 form) / annotation wrapper / struct in a list, so that the container body length runs through every value 2..24, followed by a sibling: read back exactly; (7) every ordered pair of 9 integers around the 64-byte magnitude (2^495..2^1024) written in one batch, at top level and inside one list, by each writer mode and entry point: both read back exactly; (8) a binary writer (growing and fixed table) holding 300 local symbols uses EVERY one of them as annotation, field name and symbol value (IDs 10..309 cross the one-byte VarUInt boundary at 128; thorough: a 16 500-symbol table around ID 16384): read back by text. " +
+			"(4) ion-go's VarUInt/VarInt/Int encoders composed with its own decoders at every 2^k±2 and 0..299, and the ten-byte VarUInt / VarInt spelling of each of these plus 1, 2, 3, 32, 63 times 2^64 / 2^63, which must be refused rather than wrapped; (5) symbol IDs at VarUInt/UInt boundaries up to 2^32 through a placeholder import (last import slot, first local slot, one past the end) as value, annotation and field name; (6) an integer of every byte length 1..20, both signs, inside a list / sexp / struct / sorted struct (D1 form) / annotation wrapper / struct in a list, so that the container body length runs through every value 2..24, followed by a sibling: read back exactly; (7) every ordered pair of 9 integers around the 64-byte magnitude (2^495..2^1024) written in one batch, at top level and inside one list, by each writer mode and entry point: both read back exactly; (8) a binary writer (growing and fixed table) holding 300 local symbols uses EVERY one of them as annotation, field name and symbol value (IDs 10..309 cross the one-byte VarUInt boundary at 128; thorough: a 16 500-symbol table around ID 16384): read back by text. " +
 			"non-trivial = an ion-go result was compared with exact big-integer/bit arithmetic; distinct = distinct (part, case, observation) digests",
 		Bounds:      map[string]string{"quick": "ints: 131,073 small + 790 boundary x 6 carriers; floats 2 x 2048 x 16", "thorough": "ints 2^21+1 small; floats 2 x 2048 x 256"},
 		Assumptions: []string{"IntValue is documented as int32-ranged; for values in (int32, int64] an exact value or an error are both accepted", "math/big, math.Float64bits trusted"},
